@@ -48,7 +48,9 @@ func genRemoteWriteAuth(t *rapid.T, g *secretGen, label string) Auth {
 }
 
 func genAuth(t *rapid.T, g *secretGen, label string, allowFile bool) Auth {
-	switch pick(t, label+"-authKind", 40, 20, 20, 15, 5) {
+	switch pick(t, label+"-authKind", 40, 18, 18, 13, 5, 6) {
+	case 5:
+		return Auth{Kind: "oauth2", User: rapid.SampledFrom([]string{"kvass-scraper", "client: 7"}).Draw(t, label+"-clientId"), Secret: g.next(t, label)}
 	case 1:
 		return Auth{Kind: "basic", User: rapid.SampledFrom([]string{"admin", "user: x", "scraper"}).Draw(t, label+"-user"), Secret: g.next(t, label)}
 	case 2:
